@@ -301,6 +301,9 @@ class SplitSock(env._PlainSocket):
         w.log.append(('write-part', self.id, it[h:], me, snap))
 
 
+BIG = 70000
+
+
 def make_ws(c, w, sched, compress_cfg=None):
     L = lomond()
     from lomond.session import WebsocketSession
@@ -375,6 +378,11 @@ def run_sched(c, P):
                     pay = [c.byte('%s_b%d' % (name, i))]
                     if c.concrete is not None and P.get('compress'):
                         pay = [0x40 + int(name[1:])] * 4
+                    ws.send_binary(mk_bytes(pay))
+                    sent[name].append((2, pay))
+                elif op == 'send_big':
+                    # a large message (more than one 64 KiB buffer): symbolic first byte, fixed pattern behind it
+                    pay = [c.byte('%s_g%d' % (name, i))] + [(k * 7 + 3) & 0xFF for k in range(BIG - 1)]
                     ws.send_binary(mk_bytes(pay))
                     sent[name].append((2, pay))
                 elif op == 'send_ping':
@@ -504,9 +512,40 @@ def run_sched(c, P):
         if P.get('compress'):
             from .deflate import RefPeerInflater
             inflater = RefPeerInflater(c, 15, P['compress'].get('client_no_takeover', False))
-        for f in frames:
-            if f['opcode'] not in (1, 2, 9, 10):
-                continue
+        # what the peer decodes, in wire order (RFC 6455 5.4: a data message is one unfragmented frame or a first frame
+        # FIN=0 followed by continuation frames of the SAME message; control frames may stand between fragments)
+        wire_msgs = []
+        cur = None
+        for fi, f in enumerate(frames):
+            if f['opcode'] in (9, 10):
+                wire_msgs.append(dict(f, first=fi))
+            elif f['opcode'] in (1, 2):
+                if cur is not None:
+                    who_a, _ = _writer_of_frame(parts, frames, cur['first'])
+                    who_b, _ = _writer_of_frame(parts, frames, fi)
+                    c.fail('C11: the peer cannot decode the wire: a new data message (frame %d, written by %s) starts while the fragmented '
+                           'message begun in frame %d (written by %s) is still in progress' % (fi, who_b, cur['first'], who_a),
+                           sig='C11: fragments of different messages interleaved on the wire')
+                cur = dict(f, first=fi, payload=list(f['payload']))
+                if f['fin']:
+                    wire_msgs.append(cur)
+                    cur = None
+            elif f['opcode'] == 0:
+                if cur is None:
+                    c.fail('C11: the peer cannot decode the wire: continuation frame %d without a message in progress' % fi,
+                           sig='C11: fragments of different messages interleaved on the wire')
+                who_a, _ = _writer_of_frame(parts, frames, cur['first'])
+                who_b, _ = _writer_of_frame(parts, frames, fi)
+                if who_a != who_b:
+                    c.fail('C11: continuation frame %d written by %s continues a message begun by %s' % (fi, who_b, who_a),
+                           sig='C11: fragments of different messages interleaved on the wire')
+                cur['payload'] = cur['payload'] + list(f['payload'])
+                if f['fin']:
+                    wire_msgs.append(cur)
+                    cur = None
+        if cur is not None:
+            c.fail('C11: the last data message on the wire is never finished (no FIN frame)', sig='C11: message lost')
+        for f in wire_msgs:
             pay = f['payload']
             if f['rsv1']:
                 try:
@@ -527,7 +566,7 @@ def run_sched(c, P):
                     c.fail('C11: the peer cannot inflate the messages although they were written in the order they were compressed: %s '
                            '(compress order %s)' % (e, calls), sig='C11: peer cannot inflate; compression order equals wire order')
             # the frame must be the next message of the thread that wrote it
-            who, _snap = _writer_of_frame(parts, frames, frames.index(f))
+            who, _snap = _writer_of_frame(parts, frames, f['first'])
             q = remaining.get(who)
             if not q or q[0][0] != f['opcode']:
                 c.fail('C11: a frame on the wire (opcode %d, written by %s) is not the next message of that thread '
